@@ -89,6 +89,12 @@ fn c07_eval(tape: &[u16], rep: &Report) -> Result<(), Fail> {
             let on = match compile_with_mask(&src, lvl, 0) {
                 Ok(b) => b,
                 Err(f) => {
+                    if f.internal && compile_with_mask(&src, lvl, 1).is_ok() {
+                        // the program builds without the optimizer but not with it: the optimizer broke the build
+                        let culprit = SUBPASSES.iter().enumerate().find(|(i, _)| compile_with_mask(&src, lvl, 1 << (i + 1)).is_ok()).map(|(_, n)| n.to_string()).unwrap_or_else(|| "combination".into());
+                        let detail = format!("{lname} build fails only with the abstract-instruction optimizer on ({}); it builds when `{culprit}` is skipped", truncate(f.errors.first().map(|s| s.as_str()).unwrap_or(""), 200));
+                        return Err((format!("asm-optimizer-breaks-build:{culprit}"), detail.clone(), json!({"tape": tape, "no_trap": no_trap, "level": lname, "src": src, "detail": detail})));
+                    }
                     rep.class(if f.internal { "normal-build:internal-error(C17 domain)" } else { "generator_rejected" });
                     continue;
                 }
@@ -171,6 +177,14 @@ pub fn run_c07(ctx: &Ctx) {
         let tape = gen_one(ctx.seed.wrapping_add(k), &tape_strategy());
         if let Some(src) = gen_source(&tape, false, false) {
             rep.sample(|| json!({"generated_script": truncate(&src, 1500)}));
+        }
+    }
+    // a level at which nothing could be compared means the check did not look at that half of the property
+    for l in ["O0", "O1"] {
+        if rep.class_count(&format!("compared:{l}")) == 0 && rep.violation_count() == 0 {
+            eprintln!("INCONCLUSIVE: no program could be compared at {l}");
+            crate::c17mut::drop_worker();
+            std::process::exit(2);
         }
     }
     vcore::fastc::drop_thread_fastc();
